@@ -471,9 +471,17 @@ impl<'a> VisitMut for Rewriter<'a> {
                     while let Expr::MethodCall(mc) = cur {
                         let r = norm(&mc.receiver.to_token_stream().to_string());
                         if format!("{}{}", r, chain) == full {
-                            let fpath = parse_expr_str(f);
+                            let (fname, mode) = match f.split_once(':') {
+                                Some((a, b)) => (a.to_string(), b.to_string()),
+                                None => (f.clone(), String::new()),
+                            };
+                            let fpath = parse_expr_str(&fname);
                             let recv = &mc.receiver;
-                            hit = Some(parse_quote!(#fpath(#recv)));
+                            hit = Some(match mode.as_str() {
+                                "&" => parse_quote!(#fpath(&#recv)),
+                                "&mut" => parse_quote!(#fpath(&mut #recv)),
+                                _ => parse_quote!(#fpath(#recv)),
+                            });
                             break;
                         }
                         cur = &mc.receiver;
@@ -530,10 +538,70 @@ impl<'a> VisitMut for Rewriter<'a> {
                 *e = n;
             }
         }
+        // R-forby: `for PAT in E.by_ref() BODY` => `while let Some(PAT) = E.next() BODY`
+        {
+            let mut rep: Option<Expr> = None;
+            if let Expr::ForLoop(fl) = e {
+                if let Expr::MethodCall(mc) = &*fl.expr {
+                    if mc.method == "by_ref" && mc.args.is_empty() && fl.label.is_none() {
+                        let recv = &mc.receiver;
+                        let pat = &fl.pat;
+                        let body = &fl.body;
+                        rep = Some(parse_quote!(while let Some(#pat) = #recv.next() #body));
+                    }
+                }
+            }
+            if let Some(n) = rep {
+                fire(self.fired, "R-forby");
+                *e = n;
+            }
+        }
+        // R-enumerate: `for (I, X) in V.iter().enumerate() BODY` =>
+        //   { let mut __i: usize = 0; while __i < V.len() { let I = __i; let X = &V[__i]; __i += 1; BODY } }
+        {
+            let mut rep: Option<Expr> = None;
+            if let Expr::ForLoop(fl) = e {
+                if let (Expr::MethodCall(en), Pat::Tuple(pt)) = (&*fl.expr, &*fl.pat) {
+                    if en.method == "enumerate" && en.args.is_empty() && pt.elems.len() == 2 && fl.label.is_none() {
+                        if let Expr::MethodCall(it) = &*en.receiver {
+                            if it.method == "iter" && it.args.is_empty() {
+                                let v = &it.receiver;
+                                let pi = &pt.elems[0];
+                                let px = &pt.elems[1];
+                                let stmts = &fl.body.stmts;
+                                rep = Some(parse_quote!({
+                                    let mut __i: usize = 0;
+                                    while __i < #v.len() {
+                                        let #pi = __i;
+                                        let #px = &#v[__i];
+                                        __i += 1;
+                                        #(#stmts)*
+                                    }
+                                }));
+                            }
+                        }
+                    }
+                }
+            }
+            if let Some(n) = rep {
+                fire(self.fired, "R-enumerate");
+                *e = n;
+            }
+        }
         match e {
             // R-method-map: recv.m(args) => f(recv, args)
             Expr::MethodCall(mc) => {
                 let name = mc.method.to_string();
+                // R-std-rename (default, type-directed through the VxStrExt extension trait)
+                if !self.cfg.method_map.contains_key(&name)
+                    && matches!(
+                        name.as_str(),
+                        "trim" | "trim_start" | "trim_end" | "ends_with" | "starts_with" | "strip_suffix" | "eq_ignore_ascii_case"
+                    )
+                {
+                    mc.method = syn::Ident::new(&format!("vx_{}", name), Span::call_site());
+                    fire(self.fired, &format!("R-std-rename:{}", name));
+                }
                 if let Some(f0) = self.cfg.method_map.get(&name) {
                     // "f:&mut" => f(&mut recv, args); "f:&" => f(&recv, args)
                     let (f, mode) = match f0.split_once(':') {
@@ -702,6 +770,8 @@ fn split_ref_pat(p: &mut Pat, tmp: &mut usize) -> Option<(syn::Ident, Pat)> {
 
 pub struct LoopNumberer {
     pub next: usize,
+    /// loop ordinal -> ghost iterator name (`for x in NAME: expr`, Verus syntax)
+    pub iter_names: BTreeMap<usize, String>,
 }
 impl VisitMut for LoopNumberer {
     fn visit_expr_mut(&mut self, e: &mut Expr) {
@@ -722,6 +792,12 @@ impl VisitMut for LoopNumberer {
             Expr::ForLoop(f) => {
                 self.next += 1;
                 f.body.stmts.insert(0, marker);
+                if let Some(n) = self.iter_names.get(&k) {
+                    let id = syn::Ident::new(n, Span::call_site());
+                    let ex = &f.expr;
+                    let ne: Expr = parse_quote!(__vx_iter!(#id, #ex));
+                    f.expr = Box::new(ne);
+                }
             }
             _ => {}
         }
